@@ -21,6 +21,7 @@ def dispatch (line : String) : String :=
   | "sema" :: args => Driver.SemaD.handle args
   | "tyop" :: args => Driver.SemaD.handleTyOp args
   | "visit" :: args => Driver.VisitD.handle args
+  | "visitsrc" :: args => Driver.VisitD.handleSrc args
   | "parsestep" :: args => Driver.ParseStepD.handle args
   | "lintsort" :: args => Driver.LintD.handleSort args
   | "relpath" :: args => Driver.LintD.handleRel args
